@@ -85,6 +85,13 @@ def circuit_boolean_optimizer(
         ):
             continue
 
+        # The new section must leave every value on its own qubit: the compiler
+        # implements q0 = q1 by renaming, which is not a circuit for a swap
+        if not preserve and any(
+            qc_sec.qubit_map.get(s) != i for s, i in qc.qubit_map.items()
+        ):
+            continue
+
         # Replace the circuit section with the new one
         qc_new.gates[section.index[0] : section.index[1]] = qc_sec.gates
 
